@@ -180,6 +180,10 @@ func (h *Handler) HandleMessage(msg stanza.Message, t xmlstream.TokenReadEncoder
 
 	for i.Next() {
 		start, _ := i.Current()
+		if start == nil {
+			// Character data between the children.
+			continue
+		}
 		switch start.Name.Local {
 		case "received":
 			_, id := attr.Get(start.Attr, "id")
